@@ -6,6 +6,7 @@
   theorems quantify over all oracle values.
 -/
 import Shm.Model.Handles
+import Shm.Model.Objects
 import Shm.Gen.Access
 namespace Shm
 
@@ -31,9 +32,13 @@ inductive Call
   | logout (h : Nat)
   | initPin (h : Nat) (pin : Option Bytes)
   | setPin (h : Nat) (old new : Option Bytes)
-  | create (h : Nat) (tpl : Template) (oEngine : RV)      -- oEngine: result of the attribute engine
+  | create (h : Nat) (tpl : Template) (oEngine : RV)      -- oEngine: consulted only for a non-empty CKA_CHECK_VALUE
   | destroy (h : Nat) (o : Nat)
   | objProbe (h : Nat) (o : Nat)                           -- C_GetAttributeValue(CKA_CLASS), 8-byte buffer
+  | getAttr (h : Nat) (o : Nat) (req : List (Nat × Option Nat)) (oVals : List (Nat × Option Bytes))  -- (type, buffer size | NULL); observed (len, bytes)
+  | setAttr (h : Nat) (o : Nat) (tpl : Template) (oEngine : RV)
+  | copy (h : Nat) (o : Nat) (tpl : Template) (oEngine : RV)
+  | objSize (h : Nat) (o : Nat)
   | findInit (h : Nat) (tpl : Template) (oMinted : List (Nat × Bytes))
   | find (h : Nat) (max : Nat)
   | findFinal (h : Nat)
@@ -76,19 +81,16 @@ def slotListing (ss : List Slot) : List Slot :=
   let sorted := sortSlots ss
   sorted.filter (·.tok.isSome) ++ (sorted.filter (·.tok.isNone)).reverse
 
-def tplFind (tpl : Template) (ty : Nat) : Option (Option Bytes) :=
-  (tpl.reverse.find? (·.1 == ty)).map (·.2)
-
 /-- `extractObjectInformation`: the last well-sized entry wins -/
 def tplULong (tpl : Template) (ty : Nat) : Option Nat :=
-  match (tpl.reverse.find? fun e => e.1 == ty && (match e.2 with | some v => v.length == 8 | none => false)) with
-  | some (_, some v) => some (leToNat v)
-  | _ => none
+  match tpl.reverse.find? fun e => e.ty == ty && e.len == 8 && e.val.isSome with
+  | some e => some (leToNat ((e.val.getD []).take 8))
+  | none => none
 
 def tplBool (tpl : Template) (ty : Nat) : Option Bool :=
-  match (tpl.reverse.find? fun e => e.1 == ty && (match e.2 with | some v => v.length == 1 | none => false)) with
-  | some (_, some [b]) => some (b != 0)
-  | _ => none
+  match tpl.reverse.find? fun e => e.ty == ty && e.len == 1 && e.val.isSome with
+  | some e => some ((e.val.getD []).headD 0 != 0)
+  | none => none
 
 structure ObjInfo where
   cls : Nat
@@ -114,15 +116,9 @@ def extractObjectInformation (tpl : Template) : Except RV ObjInfo :=
       let dfltPriv := if cls == CKO.CERTIFICATE || cls == CKO.PUBLIC_KEY then false else true
       .ok { cls := cls, keyType := kt.getD 0, certType := ct.getD 0, onToken := tok, isPriv := pr.getD dfltPriv }
 
-/-- the attribute values the model remembers from a creation template (spine: label only, as bytes) -/
-def tplAttrs (tpl : Template) : List (Nat × AVal) :=
-  tpl.filterMap fun e => match e.2 with
-    | some v => if e.1 == CKA.LABEL then some (e.1, AVal.bytes v) else none
-    | none => none
-
 def Obj.label (o : Obj) : Bytes :=
-  match o.attrs.reverse.find? (·.1 == CKA.LABEL) with
-  | some (_, .bytes v) => v
+  match getA o.attrs CKA.LABEL with
+  | some (.bytes v _) => v
   | _ => []
 
 /-- is the object behind handle entry `e` still alive? -/
@@ -346,17 +342,25 @@ def stepSetPin (s : State) (h : Nat) (old new : Option Bytes) : State × Resp :=
             ({ s with slots := setTok s.slots ss.slot { t with soPin := n, soLow := false } }, { rv := CKR.OK })
         | _ => rOnly s CKR.SESSION_READ_ONLY
 
-/-- classes/key types `newP11Object` knows (GOST is compiled out in this build) -/
-def knownClass (i : ObjInfo) : Bool :=
-  if i.cls == CKO.DATA then true
-  else if i.cls == CKO.CERTIFICATE then i.certType == 0 || i.certType == 0x80000000 + 0x4F50454E  -- X_509, OPENPGP (vendor)
-  else if i.cls == CKO.PUBLIC_KEY || i.cls == CKO.PRIVATE_KEY then
-    i.keyType == 0 || i.keyType == 1 || i.keyType == 3 || i.keyType == 2 || i.keyType == 0x40  -- RSA DSA EC DH EC_EDWARDS
-  else if i.cls == CKO.SECRET_KEY then
-    i.keyType == 0x10 || i.keyType == 0x27 || i.keyType == 0x28 || i.keyType == 0x2E || i.keyType == 0x2B
-      || i.keyType == 0x2C || i.keyType == 0x2D || i.keyType == 0x1F || i.keyType == 0x13 || i.keyType == 0x14 || i.keyType == 0x15
-  else if i.cls == CKO.DOMAIN_PARAMETERS then i.keyType == 1 || i.keyType == 2
-  else false
+/-- CKA_CHECK_VALUE entries are moved to the end (`CreateObject`) -/
+def reorderTpl (tpl : Template) : Template :=
+  tpl.filter (·.ty != CKA.CHECK_VALUE) ++ tpl.filter (·.ty == CKA.CHECK_VALUE)
+
+/-- attributes `CreateObject` forces after `saveTemplate` on OBJECT_OP_CREATE -/
+def postCreate (cls : Nat) (o : Attrs) : Attrs :=
+  if cls == CKO.PUBLIC_KEY then setA o CKA.LOCAL (.bool false)
+  else if cls == CKO.SECRET_KEY || cls == CKO.PRIVATE_KEY then
+    setA (setA (setA o CKA.LOCAL (.bool false)) CKA.ALWAYS_SENSITIVE (.bool false)) CKA.NEVER_EXTRACTABLE (.bool false)
+  else o
+
+/-- register a new object with a fresh handle (`addTokenObject` / `addSessionObject`) -/
+def addObject (s : State) (slot h : Nat) (onToken isPriv : Bool) (attrs : Attrs) : State × Nat :=
+  let oid := s.nextOid
+  let hO := s.counter + 1
+  let owner := if onToken then 0 else h
+  ({ s with nextOid := oid + 1, counter := hO,
+            objs := s.objs ++ [{ oid := oid, slot := slot, onToken := onToken, owner := owner, isPriv := isPriv, attrs := attrs }],
+            handles := s.handles ++ [(hO, .obj { slot := slot, owner := owner, isPriv := isPriv, oid := oid })] }, hO)
 
 def stepCreate (s : State) (h : Nat) (tpl : Template) (oEngine : RV) : State × Resp :=
   match sessTok s h with
@@ -368,16 +372,14 @@ def stepCreate (s : State) (h : Nat) (tpl : Template) (oEngine : RV) : State × 
       let acc := Gen.haveWrite (stateOf t ss.rw) info.onToken info.isPriv
       if acc != CKR.OK then rOnly s acc
       else if tpl.length > 32 then rOnly s CKR.TEMPLATE_INCONSISTENT
-      else if !knownClass info then rOnly s CKR.ATTRIBUTE_VALUE_INVALID
-      else if oEngine != CKR.OK then rOnly s oEngine        -- template rejected by the attribute engine: no effect
-      else
-        let oid := s.nextOid
-        let hO := s.counter + 1
-        let o : Obj := { oid := oid, slot := ss.slot, onToken := info.onToken,
-                         owner := if info.onToken then 0 else h, isPriv := info.isPriv, attrs := tplAttrs tpl }
-        ({ s with nextOid := oid + 1, counter := hO, objs := s.objs ++ [o],
-                  handles := s.handles ++ [(hO, .obj { slot := ss.slot, owner := o.owner, isPriv := info.isPriv, oid := oid })] },
-         { rv := CKR.OK, nums := [hO] })
+      else match findClass info.cls info.keyType info.certType with
+        | none => rOnly s CKR.ATTRIBUTE_VALUE_INVALID
+        | some cd =>
+          match saveTemplate cd (initAttrs cd) (reorderTpl tpl) OP.CREATE info.isPriv t.soIn oEngine with
+          | .error rv => rOnly s rv          -- rejected template: no effect
+          | .ok attrs =>
+            let r := addObject s ss.slot h info.onToken info.isPriv (postCreate info.cls attrs)
+            (r.1, { rv := CKR.OK, nums := [r.2] })
 
 def stepDestroy (s : State) (h o : Nat) : State × Resp :=
   match sessTok s h with
@@ -388,6 +390,7 @@ def stepDestroy (s : State) (h o : Nat) : State × Resp :=
     | some (_, ob) =>
       let acc := Gen.haveWrite (stateOf t ss.rw) ob.onToken ob.isPriv
       if acc != CKR.OK then rOnly s acc
+      else if !getBoolD ob.attrs CKA.DESTROYABLE true then rOnly s CKR.ACTION_PROHIBITED
       else
         ({ s with handles := s.handles.destroyObject o, objs := s.objs.filter (·.oid != ob.oid) }, { rv := CKR.OK })
 
@@ -403,17 +406,25 @@ def stepObjProbe (s : State) (h o : Nat) : State × Resp :=
       if acc != CKR.OK then rOnly s CKR.GENERAL_ERROR      -- C_GetAttributeValue maps the refusal to GENERAL_ERROR
       else rOnly s CKR.OK
 
-/-- does the (spine) template match? only CKA_LABEL / CKA_TOKEN / CKA_PRIVATE entries are interpreted -/
-def matchEntry (o : Obj) (e : Nat × Option Bytes) : Bool :=
-  match e.2 with
-  | none => false
-  | some v =>
-    if e.1 == CKA.LABEL then o.label == v
-    else if e.1 == CKA.TOKEN then v.length == 1 && (v == [1]) == o.onToken
-    else if e.1 == CKA.PRIVATE then v.length == 1 && (v == [1]) == o.isPriv
-    else false
+/-- one template entry against one object (`C_FindObjectsInit`): `none` = the comparison failed with an error -/
+def matchEntry (o : Obj) (e : TEntry) : Option Bool :=
+  match getA o.attrs e.ty with
+  | none => some false
+  | some (.bool b) => some (e.len == 1 && (((e.val.getD []).headD 0 == 1) == b))
+  | some (.ulong n) => some (e.len == 8 && leToNat ((e.val.getD []).take 8) == n)
+  | some (.bytes v enc) =>
+    if o.isPriv && !v.isEmpty && !enc then none          -- `token->decrypt` fails on a value that was stored in the clear
+    else some (v.length == e.len && (e.len == 0 || v == (e.val.getD []).take e.len))
+  | some (.unk) => some false
+  | some _ => some false        -- mechanism sets and attribute maps never match
 
-def matchTpl (o : Obj) (tpl : Template) : Bool := tpl.all (matchEntry o)
+def matchTpl (o : Obj) : Template → Option Bool
+  | [] => some true
+  | e :: rest =>
+    match matchEntry o e with
+    | none => none
+    | some false => some false
+    | some true => matchTpl o rest
 
 def visible (st : SState) (o : Obj) : Bool :=
   !o.isPriv || st == .roUser || st == .rwUser
@@ -442,7 +453,9 @@ def stepFindInit (s : State) (h : Nat) (tpl : Template) (oMinted : List (Nat × 
   | some (ss, t) =>
     if ss.op != .none then rOnly s CKR.OPERATION_ACTIVE else
     let st := stateOf t ss.rw
-    let cands := s.objs.filter fun o => o.slot == ss.slot && visible st o && matchTpl o tpl
+    let vis := s.objs.filter fun o => o.slot == ss.slot && visible st o
+    if vis.any (fun o => (matchTpl o tpl).isNone) then rOnly s CKR.GENERAL_ERROR else
+    let cands := vis.filter fun o => (matchTpl o tpl) == some true
     let have_ := cands.filter fun o => (s.handles.handleOf o.oid).isSome
     let lack := cands.filter fun o => (s.handles.handleOf o.oid).isNone
     -- the library mints handles counter+1 … for the handle-less matches in pointer order, which the model
@@ -458,6 +471,109 @@ def stepFindInit (s : State) (h : Nat) (tpl : Template) (oMinted : List (Nat × 
       ({ s with counter := s.counter + assigned.length,
                 handles := handles.setSess h { ss with op := .find, findRes := res } },
        { rv := CKR.OK, nums := expectVals })
+
+/-! ### C_GetAttributeValue / C_SetAttributeValue / C_CopyObject / C_GetObjectSize -/
+
+/-- `P11Object::loadTemplate`: per-entry results and the combined return code.
+    `oVals`: observed bytes, adopted only for attributes whose value the model does not compute. -/
+def loadEntries (cd : ClassDesc) (o : Attrs) (isPriv keyOk : Bool) :
+    List (Nat × Option Nat) → List (Nat × Option Bytes) → List GetRes × Bool × Bool × Bool × Bool
+  | [], _ => ([], false, false, false, false)
+  | (ty, cap) :: rest, ov =>
+    let (rs, sens, inv, small, gen) := loadEntries cd o isPriv keyOk rest ov.tail
+    match descOf cd ty with
+    | none => ({ len := UNAVAILABLE, data := none } :: rs, sens, true, small, gen)
+    | some d =>
+      match retrieve d o isPriv cap keyOk with
+      | (.ok, r) => (r :: rs, sens, inv, small, gen)
+      | (.sensitive, r) => (r :: rs, true, inv, small, gen)
+      | (.tooSmall, r) => (r :: rs, sens, inv, true, gen)
+      | (.invalid, r) => (r :: rs, sens, true, small, gen)
+      | (.general, r) => (r :: rs, sens, inv, small, true)
+      | (.unknown, _) =>
+        -- not computed by the model (key check values): take length and bytes as the library answered them
+        let obs := ov.headD (0, none)
+        ({ len := obs.1, data := obs.2 } :: rs, sens, inv, small || obs.1 == UNAVAILABLE, gen)
+
+def stepGetAttr (s : State) (h o : Nat) (req : List (Nat × Option Nat)) (oVals : List (Nat × Option Bytes)) : State × Resp :=
+  match sessTok s h with
+  | none => if (s.handles.getSess h).isNone then rOnly s CKR.SESSION_HANDLE_INVALID else rOnly s CKR.GENERAL_ERROR
+  | some (ss, t) =>
+    match resolveObj s o with
+    | none => rOnly s CKR.OBJECT_HANDLE_INVALID
+    | some (_, ob) =>
+      let acc := Gen.haveRead (stateOf t ss.rw) ob.onToken ob.isPriv
+      if acc != CKR.OK then rOnly s CKR.GENERAL_ERROR
+      else match classOfAttrs ob.attrs with
+        | none => rOnly s CKR.ATTRIBUTE_VALUE_INVALID
+        | some cd =>
+          let (rs, sens, inv, small, gen) := loadEntries cd ob.attrs ob.isPriv (ss.slot == ob.slot) req oVals
+          -- `loadTemplate` returns GENERAL_ERROR at the first entry whose retrieval fails in another way
+          let rv := if gen then CKR.GENERAL_ERROR else if sens then CKR.ATTRIBUTE_SENSITIVE
+                    else if inv then CKR.ATTRIBUTE_TYPE_INVALID else if small then CKR.BUFFER_TOO_SMALL else CKR.OK
+          if gen then rOnly s CKR.GENERAL_ERROR else
+          (s, { rv := rv, nums := rs.map (·.len), vals := rs.map (·.data) })
+
+def updObj (os : List Obj) (oid : Nat) (attrs : Attrs) : List Obj :=
+  os.map fun o => if o.oid == oid then { o with attrs := attrs } else o
+
+def stepSetAttr (s : State) (h o : Nat) (tpl : Template) (oEngine : RV) : State × Resp :=
+  match sessTok s h with
+  | none => if (s.handles.getSess h).isNone then rOnly s CKR.SESSION_HANDLE_INVALID else rOnly s CKR.GENERAL_ERROR
+  | some (ss, t) =>
+    match resolveObj s o with
+    | none => rOnly s CKR.OBJECT_HANDLE_INVALID
+    | some (_, ob) =>
+      let acc := Gen.haveWrite (stateOf t ss.rw) ob.onToken ob.isPriv
+      if acc != CKR.OK then rOnly s acc
+      else if !getBoolD ob.attrs CKA.MODIFIABLE true then rOnly s CKR.ACTION_PROHIBITED
+      else match classOfAttrs ob.attrs with
+        | none => rOnly s CKR.ATTRIBUTE_VALUE_INVALID
+        | some cd =>
+          match saveTemplate cd ob.attrs tpl OP.SET ob.isPriv t.soIn oEngine with
+          | .error rv => rOnly s rv
+          | .ok attrs => ({ s with objs := updObj s.objs ob.oid attrs }, { rv := CKR.OK })
+
+/-- attributes of the copy before the template is applied: byte strings are encrypted on a public→private copy -/
+def copyAttrs (o : Attrs) (wasPriv isPriv : Bool) : Attrs :=
+  o.map fun e => match e.2 with
+    | .bytes v enc => (e.1, .bytes v (if !wasPriv && isPriv && !v.isEmpty then true else enc))
+    | x => (e.1, x)
+
+def stepCopy (s : State) (h o : Nat) (tpl : Template) (oEngine : RV) : State × Resp :=
+  match sessTok s h with
+  | none => if (s.handles.getSess h).isNone then rOnly s CKR.SESSION_HANDLE_INVALID else rOnly s CKR.GENERAL_ERROR
+  | some (ss, t) =>
+    match resolveObj s o with
+    | none => rOnly s CKR.OBJECT_HANDLE_INVALID
+    | some (_, ob) =>
+      let st := stateOf t ss.rw
+      let accR := Gen.haveRead st ob.onToken ob.isPriv
+      if accR != CKR.OK then rOnly s accR
+      else if !getBoolD ob.attrs CKA.COPYABLE true then rOnly s CKR.ACTION_PROHIBITED
+      else
+        let onToken := (tplBool tpl CKA.TOKEN).getD ob.onToken
+        let isPriv := (tplBool tpl CKA.PRIVATE).getD ob.isPriv
+        if ob.isPriv && !isPriv then rOnly s CKR.TEMPLATE_INCONSISTENT
+        else
+          let accW := Gen.haveWrite st onToken isPriv
+          if accW != CKR.OK then rOnly s accW
+          else match classOfAttrs ob.attrs with
+            | none => rOnly s CKR.ATTRIBUTE_VALUE_INVALID
+            | some cd =>
+              match saveTemplate cd (copyAttrs ob.attrs ob.isPriv isPriv) tpl OP.COPY isPriv t.soIn oEngine with
+              | .error rv => rOnly s rv       -- every failure path destroys the new object
+              | .ok attrs =>
+                let r := addObject s ss.slot h onToken isPriv attrs
+                (r.1, { rv := CKR.OK, nums := [r.2] })
+
+def stepObjSize (s : State) (h o : Nat) : State × Resp :=
+  match sessTok s h with
+  | none => if (s.handles.getSess h).isNone then rOnly s CKR.SESSION_HANDLE_INVALID else rOnly s CKR.GENERAL_ERROR
+  | some _ =>
+    match resolveObj s o with
+    | none => rOnly s CKR.OBJECT_HANDLE_INVALID
+    | some _ => (s, { rv := CKR.OK, nums := [UNAVAILABLE] })
 
 def stepFind (s : State) (h max : Nat) : State × Resp :=
   match s.handles.getSess h with
@@ -495,6 +611,10 @@ def step (s : State) (c : Call) : State × Resp :=
   | .create h tpl e => guardInit s (stepCreate s h tpl e)
   | .destroy h o => guardInit s (stepDestroy s h o)
   | .objProbe h o => guardInit s (stepObjProbe s h o)
+  | .getAttr h o req ov => guardInit s (stepGetAttr s h o req ov)
+  | .setAttr h o tpl e => guardInit s (stepSetAttr s h o tpl e)
+  | .copy h o tpl e => guardInit s (stepCopy s h o tpl e)
+  | .objSize h o => guardInit s (stepObjSize s h o)
   | .findInit h tpl m => guardInit s (stepFindInit s h tpl m)
   | .find h m => guardInit s (stepFind s h m)
   | .findFinal h => guardInit s (stepFindFinal s h)
